@@ -237,8 +237,12 @@ def run_schedule(behaviour, expected_outcome, tid=0):
 
 # ---- uncontrolled sweep and nested calls ------------------------------------------------------------------------
 
+RETURNS = {'retnone': None, 'retzero': 0, 'retempty': ()}
+
+
 def sweep_case(case):
-    """One uncontrolled execution: kind in {sleep, raise, owntimeout, swallow, native, nested, backtoback}."""
+    """One uncontrolled execution: kind in {sleep, raise, owntimeout, swallow, native, nested, retnone, retzero, retempty}
+    (the last three return None / 0 / () - a result is a result whatever its truth value)."""
     from adsg_core.optimization.assign_enc.time_limiter import run_timeout
     kind, limit, dur = case['kind'], case['limit'], case['dur']
     state = {'executing': 0, 'begin': None, 'end': None, 'swallowed': 0}
@@ -267,7 +271,7 @@ def sweep_case(case):
                         state['swallowed'] += 1
                         continue
                     raise
-            return 'the-value'
+            return RETURNS.get(kind, 'the-value')
         finally:
             state['end'] = time.time()
             with lock:
@@ -282,7 +286,8 @@ def sweep_case(case):
     t_start = time.time()
     try:
         v = run_timeout(limit, fn)
-        rec['outcome'] = 'value' if v == 'the-value' else 'other'
+        want = RETURNS.get(kind, 'the-value')
+        rec['outcome'] = 'value' if (v == want and type(v) is type(want)) else 'other'
     except TimeoutError as e:
         rec['outcome'] = 'own_exc' if e.args == ('own-timeout-message',) else 'timeout'
         rec['exc_args'] = repr(e.args)
